@@ -15,6 +15,8 @@ LIFECYCLE_CAS = {
     ("Sending", "Sent"), ("Sending", "Sendable"),
     # the receive side hands back a slot it claimed for a response that turned out not to be this slot's
     ("RxBusy", "Sent"),
+    # retry: a request still waiting for its response is queued for transmission again
+    ("Sent", "Sendable"),
 }
 # transitions that grant a new party access to the buffer: must be compare-exchange
 GRANTING_TO = {"Created", "Sending", "RxBusy", "RxProcessing"}
@@ -30,11 +32,11 @@ EXPECTED_CAS = {
     ("SendableFrame::mark_sent", "Sending", "Sent"),
     ("SendableFrame::release_sending_claim", "Sending", "Sendable"),
     ("ReceivingFrame::release_receiving_claim", "RxBusy", "Sent"),
+    ("<ReceiveFrameFut as Future>::poll", "Sent", "Sendable"),
 }
 EXPECTED_STORES = {
     ("CreatedFrame::mark_sendable", "Sendable"): "publish by the sole holder (Created has no other party)",
     ("ReceiveFrameFut::release", "None"): "expiry/abandon",
-    ("<ReceiveFrameFut as Future>::poll", "Sendable"): "retry",
     ("PduStorageRef::reset", "None"): "reset under MainDevice::release's unsafe contract",
 }
 
@@ -413,8 +415,31 @@ def s4(prog, rep, P, tag="", parts=("mark_sendable", "receive_frame", "mark_rece
                     tt = prog.by_path.get(cc.res) or prog.by_path.get(cc.decl)
                     if tt is not None and tt.root == s_["body"].root:
                         giveback.add(cc.bb)
-            dr["wrong-claim-handed-back"] = bool(giveback) and all(g in no for g in giveback) and not any(x[0] in no for x in q.aggregates(b, "ReceiveAction", "Processed"))
+            dr["wrong-claim-handed-back"] = bool(giveback) and any(g in no for g in giveback) and not any(x[0] in no for x in q.aggregates(b, "ReceiveAction", "Processed"))
             okr = all(dr.values())
+        # every exit after a successful claim resolves it: mark_received (the response is in), or the claim is
+        # handed back.  An early `?` between the claim and mark_received would leave the slot in RxBusy: not
+        # awaiting its response any more although nothing was accepted.
+        if len(claim) == 1 and tr is not None and tr[1] is not None:
+            resolve = {x.bb for x in mr}
+            for s_ in [s_ for s_ in transitions(prog)[0] if s_["kind"] == "cas" and s_["frm"] == "RxBusy" and s_["to"] == "Sent"]:
+                for cc in b.calls():
+                    tt = prog.by_path.get(cc.res) or prog.by_path.get(cc.decl)
+                    if tt is not None and tt.root == s_["body"].root:
+                        resolve.add(cc.bb)
+            leaks = []
+            for rb in b.return_blocks():
+                if rb in b.reachable_from(tr[1]) and rb in b.reachable_from(tr[1], avoid=resolve):
+                    # find an offending exit: a block on an unresolved path that assigns the return value
+                    leaks.append(rb)
+            # report the early exits by the calls that produce the residual
+            offenders = []
+            if leaks:
+                unresolved = b.reachable_from(tr[1], avoid=resolve)
+                for c in b.calls():
+                    if c.bb in unresolved and c.is_("FromResidual::from_residual"):
+                        offenders.append(c.span)
+            rep.ob(P + ".S4", "receive_frame:claim-resolved-on-every-exit" + tag, not leaks, "after claim_receiving succeeded every way out of receive_frame passes mark_received or hands the claim back (RxBusy -> Sent); unresolved exits: %s" % offenders, loc=b.span, how="path")
         rep.ob(P + ".S4", "receive_frame:marker-revalidated-after-claim" + tag, okr, "between lookup and claim the slot can change hands: after the claim the first-datagram marker is compared with the received index again; only then is the response copied, otherwise the claim is handed back (RxBusy -> Sent); %s" % (dr or "no re-validation found"), loc=b.span)
         # no slot write before the claim: the only FrameBox/FrameElement writers reachable from receive_frame
         wr = [c for c in b.calls() if c.is_("FrameBox::pdu_buf_mut", "FrameBox::init", "FrameBox::add_pdu", "FrameBox::set_state", "FrameElement::set_state")]
